@@ -188,6 +188,18 @@ def value_under_class(facts, v, obj, cls):
         if k == 'call' and v[1] in ('int', 'bool') and len(v[2]) == 1 and not v[3]:
             inner = value_under_class(facts, v[2][0], obj, cls)
             return int(inner) if v[1] == 'int' else bool(inner)
+    if k == 'attr' and v[1] == obj:
+        # item.WORD_FORMAT: a class-level constant, looked up along the MRO of the exact class
+        import ast
+        from .astutil import fold, NotConstant
+        for c in facts.mro(cls):
+            for st in facts.classes[c].node.body:
+                if isinstance(st, ast.Assign) and any(isinstance(t, ast.Name) and t.id == v[2] for t in st.targets):
+                    try:
+                        return fold(st.value, facts.consts)
+                    except NotConstant:
+                        raise NotUnderstood('class attribute {}.{} is not a constant'.format(c, v[2]))
+        raise NotUnderstood('{} is not a class-level constant of {}'.format(v[2], cls))
     if k == 'mcall' and v[1] == obj and v[2] == 'size' and not v[3] and not v[4]:
         # item.size(): a literal `return <int>` of the class that defines it
         import ast
